@@ -329,6 +329,64 @@ func assignedConst(repo, file, fn, lhs string) string {
 	return res
 }
 
+// frameGuard translates the size check of directchannel.handleNewPeer: the `if … > DelimitedReadMaxSize
+// { …return }` statement, with `length64` read as the unsigned 64-bit value and `length` as
+// `int(length64)` when (and only when) that conversion precedes the check.
+func frameGuard(repo string) string {
+	file := "pubsub/directchannel/channel.go"
+	f, err := parser.ParseFile(fset, filepath.Join(repo, file), nil, 0)
+	if err != nil {
+		die("%s: %v", file, err)
+	}
+	fd := findFunc(f, "handleNewPeer")
+	if fd == nil {
+		die("%s: handleNewPeer not found", file)
+	}
+	converted := false
+	for _, st := range fd.Body.List {
+		if a, ok := st.(*ast.AssignStmt); ok && len(a.Lhs) == 1 && src(a.Lhs[0]) == "length" {
+			if src(a.Rhs[0]) != "int(length64)" {
+				die("%s: length is %q", file, src(a.Rhs[0]))
+			}
+			converted = true
+		}
+		ifs, ok := st.(*ast.IfStmt)
+		if !ok || !strings.Contains(src(ifs.Cond), "DelimitedReadMaxSize") {
+			continue
+		}
+		hasReturn := false
+		for _, b := range ifs.Body.List {
+			if _, ok := b.(*ast.ReturnStmt); ok {
+				hasReturn = true
+			}
+		}
+		be, ok := ifs.Cond.(*ast.BinaryExpr)
+		if !ok || !hasReturn || src(be.Y) != "DelimitedReadMaxSize" {
+			die("%s: size check %q", file, src(ifs.Cond))
+		}
+		var lhs string
+		switch src(be.X) {
+		case "length64":
+			lhs = "(len64.toNat : Int)"
+		case "length":
+			if !converted {
+				die("%s: length used before its conversion", file)
+			}
+			lhs = "len64.toInt"
+		default:
+			die("%s: size check operand %q", file, src(be.X))
+		}
+		ops := map[token.Token]string{token.GTR: ">", token.GEQ: "≥"}
+		op, ok := ops[be.Op]
+		if !ok {
+			die("%s: size check operator %q", file, be.Op.String())
+		}
+		return fmt.Sprintf("/-- generated from %s, func handleNewPeer: the frame is refused when this holds -/\ndef genFrameRefused (len64 : BitVec 64) : Bool :=\n  decide (%s %s delimitedReadMaxSize)\n\n", file, lhs, op)
+	}
+	die("%s: no size check against DelimitedReadMaxSize in handleNewPeer", file)
+	return ""
+}
+
 func main() {
 	if len(os.Args) != 3 {
 		fmt.Fprintln(os.Stderr, "usage: extract <repo> <outdir>")
@@ -356,6 +414,7 @@ func main() {
 		sb.WriteString(translate(repo, t) + "\n")
 	}
 	fmt.Fprintf(&sb, "/-- pubsub/directchannel/channel.go: DelimitedReadMaxSize -/\ndef delimitedReadMaxSize : Int := %s\n\n", constantOf(repo, "pubsub/directchannel/channel.go", "DelimitedReadMaxSize"))
+	sb.WriteString(frameGuard(repo))
 	fmt.Fprintf(&sb, "/-- stores/replicator/replicator.go: batchSize -/\ndef batchSize : Int := %s\n\n", constantOf(repo, "stores/replicator/replicator.go", "batchSize"))
 	fmt.Fprintf(&sb, "/-- stores/basestore/base_store.go: default referenceCount -/\ndef referenceCount : Int := %s\n\n", assignedConst(repo, "stores/basestore/base_store.go", "InitBaseStore", "b.referenceCount"))
 	sb.WriteString("end Orbit.Gen\n")
